@@ -28,7 +28,7 @@ RULE = ('each run is one history: 4-24 operations (assemble(target, compress, in
         'fault) executed in one process on one persistent SimFS with a shared include_dirs list; oracle = refinement against the pristine-process '
         'reference (same call, same snapshot, forked from a process that never assembled) + invariants on module tables, earlier results, caller '
         'objects and function defaults after every step; a sample of histories is re-executed in fresh interpreters under PYTHONHASHSEED '
-        '0/1/2/12345/random and CLI runs on a real temp tree.  non-trivial = history with >= 2 assemble steps of which one follows a failing, '
+        '0/1/2/12345 plus one drawn 32-bit seed and CLI runs on a real temp tree.  non-trivial = history with >= 2 assemble steps of which one follows a failing, '
         'crashed or related call; distinct = sequence of (program kind, outcome class, fault kind)')
 COMPONENTS = {'real': ['bronzebeard/asm.py (assemble and all passes; module tables REGISTERS/INSTRUCTIONS/KEYWORDS/...)', 'cli_main under different PYTHONHASHSEED (real file system, subprocess)'],
               'stub': ['file system and cwd (SimFS, persistent across the history)', 'pristine-process reference obtained by fork']}
@@ -88,7 +88,9 @@ def pool_programs(r):
     multi_alias = 'RA1 = t0\nRB1 = s0\nRC1 = a5\n%s:\n%s:\n    add RA1, RB1, RC1\n    sub RB1, RB1, RC1\n    sw RC1, 4(RB1)\n    beq RB1, x0, %s\n    jal x0, %s\n' % (lab, lab2, lab, lab2)
     walrus_def = '%s = [nleak := %d for _ in [0]][0] * 4\n%s:\n    addi t0, t0, %s\n' % (kon, val % 500, lab, kon)
     walrus_use = '%s:\n    addi t0, t0, nleak\n    nop\n' % lab
-    entries = [('clash', clash), ('blob', blobprog), ('walrus-definer', walrus_def), ('walrus-user', walrus_use), ('li-small', li_small), ('li-big', li_big), ('multi-alias', multi_alias), ('definer', definer), ('user', user), ('user-labels', user_labels_only), ('alias-definer', alias_def), ('alias-user', alias_user),
+    upper_reg = '%s:\n    addi SP, SP, 16\n    add A0, A0, X5\n    jal RA, %s\n' % (lab, lab)
+    upper_const = 'SP = 5\nA0 = 7\nX5 = SP + A0\n%s:\n    addi t0, t0, SP\n    addi t1, t1, X5\n' % lab
+    entries = [('clash', clash), ('blob', blobprog), ('upper-reg', upper_reg), ('upper-const', upper_const), ('walrus-definer', walrus_def), ('walrus-user', walrus_use), ('li-small', li_small), ('li-big', li_big), ('multi-alias', multi_alias), ('definer', definer), ('user', user), ('user-labels', user_labels_only), ('alias-definer', alias_def), ('alias-user', alias_user),
                ('shifted', shifted), ('compressy', compressy), ('redefine', redefine)]
     # failing programs, one per fault class
     for cls in r.sample(sorted(c for c in progs.FAULTS if c != 'duplicate-label'), 3):
@@ -144,7 +146,7 @@ def make_history(r, nsteps=None):
             if ops and ops[-1]['op'] == 'assemble' and r.random() < 0.35:
                 prev = pool[ops[-1]['prog']]['kind']
                 want = {'definer': ('user', 'user-labels', 'redefine'), 'alias-definer': ('alias-user',), 'tree': ('user', 'user-labels'),
-                        'li-small': ('li-big',), 'li-big': ('li-small',), 'walrus-definer': ('walrus-user',), 'multi-alias': ('alias-user', 'user-labels')}.get(prev)
+                        'li-small': ('li-big',), 'li-big': ('li-small',), 'walrus-definer': ('walrus-user',), 'upper-reg': ('upper-const',), 'upper-const': ('upper-reg',), 'multi-alias': ('alias-user', 'user-labels')}.get(prev)
                 if want:
                     cands = [j for j, p in enumerate(pool) if p['kind'] in want]
                     if cands:
@@ -213,14 +215,15 @@ def make_scenario(spec, seed, idx):
             if op['op'] == 'assemble' and op.get('inject') and op['inject']['kind'] == 'line':
                 op['inject'] = None
         scen['kind'] = 'hs'
-        scen['hashseeds'] = r.sample(HASHSEEDS[:-1], 2) + ['random']
+        # explicit seeds only: a violation seen under PYTHONHASHSEED=random could not be replayed
+        scen['hashseeds'] = r.sample(HASHSEEDS[:-1], 2) + [str(r.randrange(3, 2 ** 32 - 1))]
         return scen
     tree = progs.gen_tree(r, max_depth=2)
     argv = (['-c'] if r.random() < 0.7 else []) + ['-l', 'labels.txt', '-o', 'o.bin', '--hex-offset', '0x08000000']
     for d in tree['inc_dirs']:
         argv += ['-i', d]
     argv.append(tree['main'])
-    return {'kind': 'hscli', 'tree': tree, 'argv': argv, 'cwd': '/w/proj', 'hashseeds': r.sample(HASHSEEDS[:-1], 2) + ['random']}
+    return {'kind': 'hscli', 'tree': tree, 'argv': argv, 'cwd': '/w/proj', 'hashseeds': r.sample(HASHSEEDS[:-1], 2) + [str(r.randrange(3, 2 ** 32 - 1))]}
 
 
 # --------------------------------------------------------------------------
